@@ -343,7 +343,7 @@ theorem classLeaves_def (fuel : Nat) (c : Class) :
         ++ q11_attrsLeaves c.attributes
         ++ (c.classes.filter (·.isPublic)).flatMap (q11_classLeaves fuel)
         ++ q11_methodsLeaves false [] c.methods
-        ++ (if !c.superclasses.isEmpty && !c.isAbstract then q11_superLeaves c.superclasses else []) := by
+        ++ (if !c.renderedSupers.isEmpty && !c.isAbstract then q11_superLeaves c.renderedSupers else []) := by
   rw [q11_classLeaves]
   rfl
 
@@ -664,5 +664,24 @@ example : files api6 true = some (
      ("numpy/numpy.sdsstub", "package numpy\n\n@PythonName(\"ndarray\")\nclass Ndarray\n")],
     ["numpy.ndarray"]) := by
   decide +kernel
+
+/-! ### the implicit base `object` (repair: `class A(object)` gave `class A() sub object`, a name no stub declares) -/
+
+/-- `object` is never among the superclasses the generator names or inlines … -/
+theorem object_base_not_rendered (c : Class) : "builtins.object" ∉ c.renderedSupers := by
+  simp [Class.renderedSupers]
+
+/-- … every other superclass is, in declaration order; a class that does not name `object` is untouched by the rule -/
+theorem rendered_supers_spec (c : Class) (s : String) : s ∈ c.renderedSupers ↔ s ∈ c.superclasses ∧ s ≠ "builtins.object" := by
+  simp [Class.renderedSupers]
+
+theorem rendered_supers_eq (c : Class) (h : "builtins.object" ∉ c.superclasses) : c.renderedSupers = c.superclasses := by
+  unfold Class.renderedSupers
+  rw [List.filter_eq_self]
+  intro x hx
+  simp only [bne_iff_ne, ne_eq]
+  intro e; subst e; exact h hx
+
+example : ({ id := "m/A", name := "A", isPublic := true, superclasses := ["m.B", "builtins.object"] } : Class).renderedSupers = ["m.B"] := by decide
 
 end StubGen.C11
